@@ -645,10 +645,70 @@ class Execution:
                     newm.nrexcl = model.nrexcl
                     self.slots[slots[selected[0]]] = [mol, newm]
 
-    def best_variant(self, real, models, partial=False):
+    def op_inter_edges(self, op, slots, edges):
+        """vermouth.edge_tuning.add_inter_molecule_edges on pool members: linked molecules are merged (in place, into the
+        first of each group), then the edges are created through the key correspondence."""
+        import networkx as nx
+        from vermouth.edge_tuning import add_inter_molecule_edges
+        slots = [s for s in slots if s in self.slots]
+        if len(set(slots)) != len(slots) or len(slots) < 2:
+            return False
+        models = [self.slots[s][1] for s in slots]
+        reals = [self.slots[s][0] for s in slots]
+        edges = [e for e in edges if e[0] < len(slots) and e[2] < len(slots)
+                 and e[1] in models[e[0]].nodes and e[3] in models[e[2]].nodes and not (e[0] == e[2] and e[1] == e[3])]
+        if not edges:
+            return False
+        graph = nx.Graph()
+        graph.add_nodes_from(range(len(slots)))
+        graph.add_edges_from((e[0], e[2]) for e in edges)
+        comps = [sorted(c) for c in nx.connected_components(graph)]
+        for comp in comps:
+            base = models[comp[0]]
+            if len(comp) > 1 and (base.nodes and not all(isinstance(k, int) for k in base.nodes)):
+                return False
+            probe = base.clone()
+            for i in comp[1:]:
+                if not probe.can_merge(models[i]):
+                    return False
+                probe.apply_merge(models[i], probe.predicted_correspondence(models[i]), probe.merge_candidates()[0])
+        out = self.call(add_inter_molecule_edges, reals, [((e[0], e[1]), (e[2], e[3])) for e in edges])
+        self.expect_ok(out, op)
+        new_list = out[1]
+        if len(new_list) != len(comps):
+            raise Violation('inter-edges-result', expected='%d molecules' % len(comps), actual=len(new_list), detail=repr(op))
+        for comp, mol in zip(comps, new_list):
+            if mol is not reals[comp[0]]:
+                raise Violation('inter-edges-result', expected='first molecule of each linked group is the base',
+                                actual='another object', detail=repr(op))
+            # key correspondence of the sequential merges (independent of the residue/charge-group shift)
+            corr = {(comp[0], k): k for k in models[comp[0]].nodes}
+            keys = set(models[comp[0]].nodes)
+            for i in comp[1:]:
+                offset = max(keys) if keys else 0
+                for n, k in enumerate(models[i].nodes):
+                    corr[(i, k)] = offset + 1 + n
+                    keys.add(offset + 1 + n)
+            merged = self.best_variant(mol, [models[i] for i in comp], edges=[
+                (corr[(e[0], e[1])], corr[(e[2], e[3])]) for e in edges if e[0] in comp])
+            if merged is None:
+                base = models[comp[0]].clone()
+                for i in comp[1:]:
+                    base.apply_merge(models[i], base.predicted_correspondence(models[i]), base.merge_candidates()[0])
+                for e in edges:
+                    if e[0] in comp:
+                        base.add_edge(corr[(e[0], e[1])], corr[(e[2], e[3])])
+                raise Violation('merge-result', expected='linked molecules merged in order, then the edges added',
+                                actual=diff_states(mol, base)[:4], detail=repr(op))
+            self.slots[slots[comp[0]]][1] = merged
+        self.stats.probes['inter_molecule_edges'] += 1
+
+    def best_variant(self, real, models, partial=False, edges=()):
         """Sequential merge of models[1:] into models[0], trying every consistent reading of 'last atom'."""
         def rec(base, rest):
             if not rest:
+                for u, v in edges:
+                    base.add_edge(u, v)
                 return base if not diff_states(real, base) else None
             other = rest[0]
             if not base.can_merge(other):
@@ -1011,13 +1071,24 @@ class Generator:
                 new['charge_group'] = new.get('charge_group', 1) + off[2]
                 bm.nodes[off[0] + i] = new
             self.models[dst] = bm      # edges/interactions are irrelevant for key tracking
-        elif r < 0.985 and len(slots) > 1:
+        elif r < 0.98 and len(slots) > 1:
             chosen = rng.sample(slots, rng.randint(2, len(slots)))
             mode = rng.choice(['chains', 'all', 'everything', 'chains'])
             chains = rng.choice([['A'], ['A', 'B'], ['B'], []]) if mode == 'chains' else []
             self.emit(['merge_system', chosen, mode, chains])
             # tracking: models of merged results are only approximated (keys may change); resync conservatively
             self.resync_after_system(chosen, mode, chains)
+        elif r < 0.992 and len(slots) > 1:
+            chosen = rng.sample(slots, rng.randint(2, len(slots)))
+            ms = [self.models[c] for c in chosen]
+            edges = []
+            for _ in range(rng.randint(1, 3)):
+                i, j = rng.randrange(len(chosen)), rng.randrange(len(chosen))
+                if ms[i].nodes and ms[j].nodes:
+                    edges.append([i, rng.choice(list(ms[i].nodes)), j, rng.choice(list(ms[j].nodes))])
+            if edges:
+                self.emit(['inter_edges', chosen, edges])
+                self.resync_after_inter_edges(chosen, edges)
         else:
             self.emit(['make_edges', slot])
             for t in ('bonds', 'angles', 'dihedrals', 'cmap', 'constraints'):
@@ -1025,6 +1096,29 @@ class Generator:
                     for u, v in zip(a[:-1], a[1:]):
                         if u != v:
                             m.add_edge(u, v)
+
+    def resync_after_inter_edges(self, chosen, edges):
+        import networkx as nx
+        models = [self.models[s] for s in chosen]
+        edges = [e for e in edges if e[1] in models[e[0]].nodes and e[3] in models[e[2]].nodes and not (e[0] == e[2] and e[1] == e[3])]
+        if not edges:
+            return
+        graph = nx.Graph()
+        graph.add_nodes_from(range(len(chosen)))
+        graph.add_edges_from((e[0], e[2]) for e in edges)
+        comps = [sorted(c) for c in nx.connected_components(graph)]
+        for comp in comps:
+            probe = models[comp[0]].clone()
+            if len(comp) > 1 and probe.nodes and not all(isinstance(k, int) for k in probe.nodes):
+                return
+            for i in comp[1:]:
+                if not probe.can_merge(models[i]):
+                    return
+                probe.apply_merge(models[i], probe.predicted_correspondence(models[i]), probe.merge_candidates()[0])
+        for comp in comps:
+            base = models[comp[0]]
+            for i in comp[1:]:
+                base.apply_merge(models[i], base.predicted_correspondence(models[i]), base.merge_candidates()[0])
 
     def resync_after_system(self, chosen, mode, chains):
         models = [self.models[s] for s in chosen]
@@ -1114,11 +1208,11 @@ class C12Check(_MolCheck):
     focus = 'C12'
     rule = ('scenario = history of 5-40 editing operations (add/remove nodes singly and in bulk incl. one-shot iterators, '
             'add/replace/remove interactions incl. rejected ones, add edges with implicit endpoints, copy, subgraph, merge of pool '
-            'members and of blocks, Block.to_molecule, MergeChains, MergeAllMolecules, make_edges_from_interactions) interleaved '
+            'members and of blocks, Block.to_molecule, MergeChains, MergeAllMolecules, edge_tuning.add_inter_molecule_edges, make_edges_from_interactions) interleaved '
             'over a pool of up to 4 live molecules; after every operation every pool member is compared with its reference model. '
             'distinct = scenario digest; non-trivial = history with at least one applied merge/copy/subgraph/removal')
     probes_expected = ['merge_after_key_churn', 'removed_highest_key', 'remove_nodes_from_iterator', 'rejected_op',
-                       'merge_rejected', 'copy_or_subgraph', 'block_merged', 'merge_chains', 'merge_all_molecules',
+                       'merge_rejected', 'copy_or_subgraph', 'block_merged', 'merge_chains', 'merge_all_molecules', 'inter_molecule_edges',
                        'interaction_replaced', 'edge_creates_node', 'add_existing_node']
 
     def budgets(self, tier):
